@@ -32,7 +32,8 @@ EXTENDS Naturals, FiniteSets, Sequences, TLC
 
 CONSTANTS Snaps,        \* ordinary snaps
           MaxChanges,   \* bound on Len(changes)
-          WithPartial   \* model bound: explore partial progress of in-progress changes (BOOLEAN)
+          WithPartial,  \* model bound: explore partial progress of in-progress changes (BOOLEAN)
+          ACfgs         \* model bound: the automatic-alias situations explored (set of acfg records)
 
 Snapd == "snapd"
 AllSnaps == Snaps \cup {Snapd}
@@ -64,18 +65,27 @@ KindOf(op) ==
       [] op = "disconnect"                                      -> "disconnect-snap"
       [] OTHER                                                  -> op      \* exclusive kinds, transitions, injected kinds
 
+\* status: "absent" | "active" (installed, enabled, the store has a newer revision) | "uptodate" (installed, enabled,
+\* nothing newer in the store) | "inactive" (installed, disabled, the store has a newer revision)
+RefreshOps == {"refresh", "refresh-many", "refresh-all", "refresh-from"}
 NeedsOK(op, S, st) ==
     CASE op \in {"install", "install-many"}  -> \A s \in S : st[s] = "absent"
       [] op = "enable"                        -> \A s \in S : st[s] = "inactive"
       [] op \in {"remove", "remove-many"}     -> \A s \in S : st[s] # "absent"
       [] op \in Excl3 \cup Transitions       -> TRUE
-      [] OTHER                                -> \A s \in S : st[s] = "active"
+      [] op \in RefreshOps                    -> \A s \in S : st[s] = "active"
+      [] OTHER                                -> \A s \in S : st[s] \in {"active", "uptodate"}
 
 Done == [kind |-> "done", ready |-> TRUE, snaps |-> {}, down |-> FALSE, done |-> {}]
 NoFrom == 0
 
-VARIABLES changes, status, mon
-vars == <<changes, status, mon>>
+\* acfg: the automatic-alias situation of the history (what the snap-declarations, i.e. the snapstate.AutoAliases hook,
+\* and the recorded aliases say), constant within a history:
+\*   new  = snaps that gained an automatic alias           drop = snaps holding an automatic alias that is gone
+\*   xsrc/xdst = (at most one each) an automatic alias held by xsrc now belongs to xdst (alias transfer)
+VARIABLES changes, status, mon, acfg
+vars == <<changes, status, mon, acfg>>
+NoA == [new |-> {}, drop |-> {}, xsrc |-> {}, xdst |-> {}]
 
 Ids       == 1..Len(changes)
 Live(ch)  == {i \in 1..Len(ch) : ~ch[i].ready}
@@ -106,9 +116,23 @@ ConflictMany(ch, S, from) == ExclErr(ch, FALSE, from) \/ Busy(ch, S, from)
 \* refresh-all: doUpdate skips every snap whose doInstall fails with a conflict
 Effective(ch, S, mutated) == {s \in S : ~ConflictMany(ch, {s}, NoFrom) /\ s \notin mutated}
 
+\* autoAliasesUpdate: OTHER snaps a refresh operates on (refresh-aliases / prune-auto-aliases tasks).
+\* HasUpdate: the refresh has an update for the snap (its aliases are then redone by link-snap, no explicit task);
+\* disabled snaps are never refresh candidates (collectCurrentSnapsAndActions skips them).
+HasUpdate(st, s) == st[s] = "active"
+\* refresh-all: snaps with a changed / dropped automatic alias that are not being updated, and every transfer source
+TouchAll(st, ac) == {s \in ac.new \cup ac.xdst \cup ac.drop \cup ac.xsrc : ~HasUpdate(st, s)} \cup ac.xsrc
+\* refresh of named snaps: only the source of an alias transfer INTO one of the named snaps
+TouchNamed(ac, S) == IF ac.xdst \cap S # {} THEN ac.xsrc ELSE {}
+\* applyAutoAliasesDelta in refresh-all mode skips the snaps it cannot touch
+EffectiveTouch(ch, st, ac) == {t \in TouchAll(st, ac) : ~ConflictMany(ch, {t}, NoFrom)}
+
 \* does the request get a *ChangeConflictError ?
 Rejected(ch, op, S, from, mutated) ==
-    CASE op \in SingleOps \cup ManyOps \cup PairOps \cup {"refresh-from"} ->
+    CASE op \in {"refresh", "refresh-many", "refresh-from"} ->
+             \* (an alias transfer source that is busy makes applyAutoAliasesDelta fail the whole named request)
+             ConflictMany(ch, S \cup TouchNamed(acfg, S), from) \/ mutated # {}
+      [] op \in SingleOps \cup ManyOps \cup PairOps ->
              ConflictMany(ch, S, from) \/ (op \in StoreOps /\ mutated # {})
       [] op \in {"snapd-revert-down", "snapd-refresh-down"} ->
              ConflictMany(ch, S, from) \/ ExclErr(ch, TRUE, from)
@@ -124,9 +148,12 @@ NewChange(op, S) == [kind |-> KindOf(op), ready |-> FALSE, snaps |-> S,
 \* the change list after the request
 After(ch, op, S, from, mutated) ==
     IF Rejected(ch, op, S, from, mutated) THEN ch
-    ELSE IF op = "refresh-from" THEN [ch EXCEPT ![from].snaps = @ \cup S, ![from].done = @ \ S]
+    ELSE IF op = "refresh-from"
+         THEN LET T == S \cup TouchNamed(acfg, S) IN [ch EXCEPT ![from].snaps = @ \cup T, ![from].done = @ \ T]
     ELSE IF op = "refresh-all"
-         THEN LET E == Effective(ch, S, mutated) IN IF E = {} THEN ch ELSE Append(ch, NewChange(op, E))
+         THEN LET E == Effective(ch, S, mutated) \cup EffectiveTouch(ch, status, acfg)
+              IN IF E = {} THEN ch ELSE Append(ch, NewChange(op, E))
+    ELSE IF op \in {"refresh", "refresh-many"} THEN Append(ch, NewChange(op, S \cup TouchNamed(acfg, S)))
     ELSE Append(ch, NewChange(op, S))
 
 (***************************************************************************)
@@ -151,15 +178,22 @@ MonOf(op, S, from, mutated, result) ==
      busy   |-> StmtBusy(changes, op, S, from),
      excl   |-> op \notin Irrelevant /\ StmtExclLive(changes, from),
      stale  |-> op \in StoreOps \ {"refresh-all"} /\ mutated # {},
-     same   |-> changes' = changes /\ status' = status]
+     same   |-> changes' = changes /\ status' = status /\ acfg' = acfg]
 
 (***************************************************************************)
 (* Actions                                                                 *)
 (***************************************************************************)
+ACfgOK(st, ac) == \A s \in ac.new \cup ac.drop \cup ac.xsrc \cup ac.xdst : st[s] # "absent"
+
 Init ==
     /\ changes = <<>>
-    /\ status \in [AllSnaps -> {"absent", "active", "inactive"}]
+    /\ acfg \in ACfgs
+    /\ status \in [AllSnaps -> {"absent", "active", "inactive", "uptodate"}]
     /\ status[Snapd] = "active"
+    /\ ACfgOK(status, acfg)
+    \* model bounds: only b may be up to date and only in the alias situations (where it matters); a is active there
+    /\ \A s \in Snaps : status[s] = "uptodate" => (s = "b" /\ acfg # NoA)
+    /\ acfg # NoA => status["a"] = "active"
     /\ mon = NoMon
 
 Room == Len(changes) < MaxChanges
@@ -167,7 +201,7 @@ Room == Len(changes) < MaxChanges
 Request(op, S, from, mutated) ==
     /\ NeedsOK(op, S, status)
     /\ changes' = After(changes, op, S, from, mutated)
-    /\ UNCHANGED status
+    /\ UNCHANGED <<status, acfg>>
     /\ mon' = MonOf(op, S, from, mutated,
                     IF Rejected(changes, op, S, from, mutated) THEN "conflict" ELSE "accepted")
 
@@ -178,7 +212,8 @@ ReqMany   == Room /\ \E op \in ManyOps, S \in SUBSET Snaps, m \in SUBSET Snaps :
                  /\ Request(op, S, NoFrom, m)
 ReqPair   == Room /\ \E op \in PairOps, S \in SUBSET Snaps : Cardinality(S) \in {1, 2} /\ Request(op, S, NoFrom, {})
 ReqAll    == Room /\ \E m \in SUBSET Snaps : Cardinality(m) <= 1
-                 /\ LET S == {s \in Snaps : status[s] = "active"} IN S # {} /\ m \subseteq S /\ Request("refresh-all", S, NoFrom, m)
+                 /\ LET S == {s \in Snaps : status[s] = "active"}
+                    IN (\E s \in Snaps : status[s] \in {"active", "uptodate"}) /\ m \subseteq S /\ Request("refresh-all", S, NoFrom, m)
 ReqFrom   == \E c \in Live(changes) : \E s \in Snaps \ changes[c].done : Request("refresh-from", {s}, c, {})
              \* (model bound: not onto a finished lane, which would un-finish it and make `done` non-monotone)
 ReqSnapd  == Room /\ \E op \in SnapdOps : Request(op, {Snapd}, NoFrom, {})
@@ -188,13 +223,13 @@ ReqTrans  == Room /\ \E op \in Transitions : Request(op, {}, NoFrom, {})
 \* changes that are created without a conflict check by design (download-only, become-operational)
 Inject == Room /\ \E k \in Irrelevant, T \in SUBSET Snaps : Cardinality(T) = 1
               /\ changes' = Append(changes, [kind |-> k, ready |-> FALSE, snaps |-> T, down |-> FALSE, done |-> {}])
-              /\ UNCHANGED status
+              /\ UNCHANGED <<status, acfg>>
               /\ mon' = [NoMon EXCEPT !.kind = "inject"]
 
 \* a change becomes ready (aborted, or run to completion with no effect on `status` modelled)
 Progress == \E c \in Live(changes) :
               /\ changes' = [changes EXCEPT ![c] = Done]
-              /\ UNCHANGED status
+              /\ UNCHANGED <<status, acfg>>
               /\ mon' = [NoMon EXCEPT !.kind = "progress"]
 
 \* partial progress: every task of change c that names snap s becomes ready (its lane is done, or failed and
@@ -204,7 +239,7 @@ PartialProgress == WithPartial /\ \E c \in Live(changes) : \E s \in changes[c].s
               \*  with its trailing check-rerefresh task; the trace spec accepts it for any change)
               /\ (Cardinality(changes[c].snaps) >= 2 \/ changes[c].kind = "refresh-snap")
               /\ changes' = [changes EXCEPT ![c].done = @ \cup {s}]
-              /\ UNCHANGED status
+              /\ UNCHANGED <<status, acfg>>
               /\ mon' = [NoMon EXCEPT !.kind = "partial"]
 
 Next == PartialProgress \/ ReqSingle \/ ReqMany \/ ReqPair \/ ReqAll \/ ReqFrom \/ ReqSnapd \/ ReqExcl \/ ReqTrans \/ Inject \/ Progress
@@ -247,6 +282,10 @@ ExclusiveLast ==
 ExclusiveAlone ==
     \A i, j \in Live(changes) : (i # j /\ IsExclusive(changes[i])) => changes[j].kind \in Irrelevant
 
+\* model values for ACfgs: nothing / b gained an alias / b holds a dropped alias / b's alias moved to a
+MCACfgs == {NoA, [NoA EXCEPT !.new = {"b"}], [NoA EXCEPT !.drop = {"b"}], [NoA EXCEPT !.xsrc = {"b"}, !.xdst = {"a"}]}
+MCACfgsQ == {NoA, [NoA EXCEPT !.new = {"b"}], [NoA EXCEPT !.xsrc = {"b"}, !.xdst = {"a"}]}
+MCNoACfgs == {NoA}
 MCSnaps2 == {"a", "b"}
 MCSnaps3 == {"a", "b", "c"}
 =============================================================================
